@@ -161,6 +161,7 @@ class Cap(object):
         self.nstates = 0
         self.notes = []
         self.seen_obl = {}
+        self.peeling = False
 
     # ------------------------------------------------------------------ obligations
     def oblige(self, st, kind, node, goal, detail, fn=None):
@@ -1888,7 +1889,12 @@ class Cap(object):
         # buffers the loop writes: their string length / terminator position are loop-carried too
         written = set()
         rs_ = self.record
-        self.record = False
+        # the first way round the loop is executed from the exact entry state, obligations recorded (these are real
+        # states, not the summary), and so is the second evaluation of the condition: a defect that needs one
+        # completed iteration (a buffer not grown for the next read) is decided here and not lost in the summary
+        self.record = rs_ and not self.peeling
+        was_peeling = self.peeling
+        self.peeling = True
         try:
             probe = pre.copy()
             base_ver = {rid: r.wver for rid, r in probe.regions.items()}
@@ -1896,10 +1902,13 @@ class Cap(object):
                 for rid, r in e_.regions.items():
                     if rid in base_ver and r.wver != base_ver[rid]:
                         written.add(rid)
+                if self.record and n.get("cond") is not None:
+                    self.branch(n["cond"], e_.copy())
         except TooManyStates:
             written = set(pre.regions)
         finally:
             self.record = rs_
+            self.peeling = was_peeling
         h, sub = havoc(pre)
         for rid in sorted(written):
             r0 = pre.regions.get(rid)
@@ -2051,12 +2060,16 @@ class Cap(object):
 
         record_save = self.record
         self.record = False
-        keep = list(cands)
+        # candidates must hold on entry (x = e0); filtering first keeps the conjunction satisfiable, so the inductive
+        # step below is never vacuous
+        m0 = {info[1]: info[2] for info in sub.values()}
+        keep = [c for c in cands if entails(pre.cons, c[1].subst(m0))]
         try:
-            for _round in range(6):
+            for _round in range(12):
                 hs = h.copy()
                 hs.cons = hs.cons + [c[1] for c in keep]
                 if not feasible(hs.cons):
+                    keep = []
                     break
                 ends = self.one_iteration(n, hs)
                 dropped = False
@@ -2085,6 +2098,8 @@ class Cap(object):
                 keep = nk
                 if not dropped:
                     break
+            else:
+                keep = []        # no fixpoint within the round budget: nothing is assumed
         except TooManyStates:
             if DEBUG_LOOPS:
                 print("LOOP line %s: TooManyStates during invariant inference (nstates=%d)" % (n.get("l"), self.nstates))
